@@ -185,6 +185,76 @@ theorem int64_witness : jsonEncode (fun _ => "9007199254740992.0".toList) (.int 
 /-- NodeId / QualifiedName text is not escaped: a quote in the identifier gives invalid JSON (D-C10b) -/
 theorem nodeid_quote_witness : nodeIdJson ⟨0, .s, "a\"b".toList⟩ = "{\"IdType\":1,\"Id\":\"a\"b\"}".toList := by decide
 
+/-! ### object shapes -/
+
+/-- one `"key":"string value"` member followed by `tail`, read with any fuel ≥ 2 -/
+theorem readMembers_strMember (f : Nat) (k v tail : Str) (hk : escBody k = k)
+    (rest : List (Str × JsonV)) (after : Str)
+    (htail : (tail = '}' :: after ∧ rest = []) ∨
+             (∃ r4, tail = ',' :: r4 ∧ readMembers (f + 1) r4 = some (rest, after))) :
+    readMembers (f + 2) (pyJsonQuote k ++ ':' :: (pyJsonQuote v ++ tail)) = some ((k, .str v) :: rest, after) := by
+  have e1 : pyJsonQuote k ++ ':' :: (pyJsonQuote v ++ tail) = '"' :: (escBody k ++ '"' :: (':' :: (pyJsonQuote v ++ tail))) := by
+    simp [pyJsonQuote]
+  rw [e1, readMembers, skipWs_cons _ _ (by decide)]
+  simp only [readBody_escBody]
+  rw [skipWs_cons _ _ (by decide)]
+  simp only [readValue_quote]
+  rcases htail with ⟨ht, hr⟩ | ⟨r4, ht, hm⟩
+  · subst ht; subst hr
+    rw [skipWs_cons _ _ (by decide)]
+    simp
+  · subst ht
+    rw [skipWs_cons _ _ (by decide)]
+    simp [hm]
+
+theorem textKey_eq : "{\"Text\":".toList = '{' :: (pyJsonQuote "Text".toList ++ [':']) := by decide
+theorem localeKey_eq : ",\"Locale\":".toList = ',' :: (pyJsonQuote "Locale".toList ++ [':']) := by decide
+
+def kText : Str := "Text".toList
+def kLocale : Str := "Locale".toList
+
+/-- **LocalizedText has the right shape and loses nothing**: the encoding is one JSON object whose
+    `Text` member is exactly the text and whose `Locale` member, present iff the value has a
+    locale, is exactly the locale — for every text and locale (quotes, backslashes, control and
+    non-ASCII characters included) -/
+theorem locText_valid (fs : Int → Str) (t : Str) (l : Option Str) :
+    ∃ j, jsonEncode fs (.locText (some t) l) = .ok (some j) ∧
+      parseJson j = some (.obj ((kText, .str t) :: (match l with | none => [] | some x => [(kLocale, .str x)]))) := by
+  refine ⟨ltJson (some t) l, by simp [jsonEncode], ?_⟩
+  unfold parseJson
+  -- the text of the object, as `{` members `}`
+  have hshape : ltJson (some t) l = '{' :: (pyJsonQuote kText ++ ':' :: (pyJsonQuote t ++
+      (match l with | none => ['}'] | some x => ',' :: (pyJsonQuote kLocale ++ ':' :: (pyJsonQuote x ++ ['}']))))) := by
+    unfold ltJson kText kLocale
+    rw [textKey_eq, localeKey_eq]
+    cases l <;> simp
+  have hlen : ∃ n, (ltJson (some t) l).length + 1 = n + 4 := by
+    refine ⟨(ltJson (some t) l).length - 3, ?_⟩
+    have : 3 ≤ (ltJson (some t) l).length := by rw [hshape]; simp [pyJsonQuote]; omega
+    omega
+  obtain ⟨n, hn⟩ := hlen
+  rw [hn, hshape, readValue, skipWs_cons _ _ (by decide)]
+  have hq : ∀ r, skipWs (pyJsonQuote kText ++ r) = pyJsonQuote kText ++ r := by
+    intro r; simp [pyJsonQuote, skipWs, List.dropWhile, isJsWs]
+  have hk1 : escBody kText = kText := by decide
+  have hk2 : escBody kLocale = kLocale := by decide
+  simp only [show ('{' : Char) ≠ '"' from by decide, show ('{' : Char) ≠ '[' from by decide, if_false, if_true, hq]
+  cases l with
+  | none =>
+    have hm := readMembers_strMember (n + 1) kText t ['}'] hk1 [] [] (Or.inl ⟨rfl, rfl⟩)
+    have hne : ∀ r, (pyJsonQuote kText ++ r) = '"' :: (escBody kText ++ '"' :: r) := by intro r; simp [pyJsonQuote]
+    simp only [hne] at hm ⊢
+    simp only [hm]
+    simp [skipWs]
+  | some x =>
+    have hin := readMembers_strMember n kLocale x ['}'] hk2 [] [] (Or.inl ⟨rfl, rfl⟩)
+    have hm := readMembers_strMember (n + 1) kText t (',' :: (pyJsonQuote kLocale ++ ':' :: (pyJsonQuote x ++ ['}']))) hk1
+      [(kLocale, .str x)] [] (Or.inr ⟨_, rfl, hin⟩)
+    have hne : ∀ r, (pyJsonQuote kText ++ r) = '"' :: (escBody kText ++ '"' :: r) := by intro r; simp [pyJsonQuote]
+    simp only [hne] at hm ⊢
+    simp only [hm]
+    simp [skipWs]
+
 /-! ### non-vacuity -/
 example : parseJson (pyJsonQuote ['a', '"', '\\', '\n', Char.ofNat 1, 'é']) = some (.str ['a', '"', '\\', '\n', Char.ofNat 1, 'é']) :=
   string_valid _
